@@ -71,7 +71,7 @@ pub(super) fn creation_timestamp_of_currentfile(
             config.use_utc,
             &date_for_rotated_file,
             fmt,
-        );
+        )?;
 
         #[cfg(feature = "verif_hooks")]
         crate::verif_hooks::point("rename_current", Some(&current_path), Some(&rotated_path))?;
@@ -132,13 +132,13 @@ fn path_for_rotated_file_from_timestamp(
     use_utc: bool,
     timestamp_for_rotated_file: &DateTime<Local>,
     fmt: &InfixFormat,
-) -> PathBuf {
+) -> Result<PathBuf, std::io::Error> {
     let infix = file_spec.collision_free_infix_for_rotated_file(&infix_from_timestamp(
         timestamp_for_rotated_file,
         use_utc,
         fmt,
-    ));
-    file_spec.as_pathbuf(Some(&infix))
+    ))?;
+    Ok(file_spec.as_pathbuf(Some(&infix)))
 }
 
 #[cfg(test)]
